@@ -56,6 +56,17 @@ func verifEnforcement(loose bool) {
 	if bindKind == 2 || bindKind == 3 {
 		vAssume(m.AddBindingV6(vSubMAC, bound6) == nil)
 	}
+	// optionally the operator changes the mode and the binding is written again (e.g. on lease renewal):
+	// the binding must then carry the current mode
+	if !loose && (bindKind == 1 || bindKind == 3) && ndPick("mode-change-then-readd", 2) == 1 {
+		newMode := []Mode{ModeDisabled, ModeStrict, ModeLogOnly}[ndPick("new-mode", 3)]
+		vAssume(m.SetMode(newMode) == nil)
+		vAssume(m.AddBinding(vSubMAC, bound4) == nil)
+		if bindKind == 3 {
+			vAssume(m.AddBindingV6(vSubMAC, bound6) == nil)
+		}
+		defMode, subMode = newMode, newMode
+	}
 	// optionally one allowed range (loose mode)
 	haveRange := loose && ndPick("range", 2) == 1
 	rangeIP := net.IP(ndBytes("range.ip", 4))
